@@ -29,7 +29,6 @@ MIN_EVALUATIONS = c03.MIN_EVALUATIONS
 MAX_REJECT_RATE = c03.MAX_REJECT_RATE
 EXHAUSTIVE = c03.EXHAUSTIVE
 setup_worker = c03.setup_worker
-jobs = c03.jobs
 candidates = c03.candidates
 
 
@@ -67,9 +66,63 @@ def single_run_model(case):
     return uid
 
 
+def jobs(tier, scale=1.0):
+    out = c03.jobs(tier, scale)
+    per = int((120 if tier == 'quick' else 4000) * scale)
+    for i in range(2 if tier == 'quick' else 4):
+        out.append({'kind': 'hyp', 'stratum': 'mergeable_run', 'shard': 200 + i, 'examples': per})
+    return out
+
+
+from hypothesis import strategies as st      # noqa: E402
+from .. import evolvecase as EC              # noqa: E402
+from .. import refmodel as R                 # noqa: E402
+
+
+@st.composite
+def mergeable_run_cases(draw):
+    """One model with a column of every kind and a run of 2-4 AddField /
+    ChangeField mutations (no type change, no db_column: the mergeable ones)
+    touching every kind of attribute (max_length, null+initial, unique,
+    max_digits/decimal_places, db_index); half the runs also get a DeleteField
+    (F-C18-1's trigger, so that finding stays observed)."""
+    F, M = S.new_field, S.new_model
+    spec = S.new_project()
+    S.add_model(spec, 'pa', M('Alpha', [
+        F('a', 'Char', max_length=20), F('b', 'Integer', null=True), F('c', 'BigInteger'),
+        F('d', 'Decimal', max_digits=8, decimal_places=2), F('name', 'Text', null=True)]))
+    spec = mutgen.ensure_uids(spec)
+    feats = S.Features(two_apps=False, meta=False, relations=False, m2m=False, db_column=False,
+                       positive=False)
+    kinds = ['AddField', 'ChangeField', 'ChangeField']
+    if draw(st.booleans()):
+        kinds.append('DeleteField')
+    opts = mutgen.WalkOpts(kinds=kinds, type_changes=False, min_len=2, max_len=4,
+                           avoid={'index_cover', 'dbcol_dbindex', 'dbindex_with_rebuild'})
+    seq, _final = draw(mutgen.walks(spec, feats, opts))
+    keep, cur = [], spec
+    for m in seq:
+        if m['kind'] == 'ChangeField' and ('db_column' in m['attrs'] or m.get('field_kind')):
+            continue
+        try:
+            nxt = R.apply(cur, m, strict=True)
+        except Exception:
+            continue
+        keep.append(m)
+        cur = nxt
+    rows, links = draw(EC.rows_for(spec, keep, 2))
+    n = len(keep)
+    cuts = sorted(set(draw(st.lists(st.integers(1, max(1, n - 1)), max_size=1))))
+    return {'mode': 'walk', 'spec': spec, 'seq': keep, 'rows': rows, 'links': links, 'cuts': cuts}
+
+
 def run_job(job, seed, rec, tier):
     from .. import run as RUN
     setup_worker()
+    if job['kind'] == 'hyp' and job.get('stratum') == 'mergeable_run':
+        RUN.hyp_job(mergeable_run_cases(), check, job['examples'], seed, rec,
+                    max_seconds=(100 if tier == 'quick' else 3000))
+        return
     if job['kind'] == 'replay':
         with open(job['file']) as fh:
             doc = json.load(fh)
